@@ -205,7 +205,7 @@ func RunPool(sc PoolScenario, prefix []int) *PoolResult {
 			h = batched.NewHandler(sock, opts)
 		}
 		go func() {
-			r := CallHandler(h, op)
+			r := CallHandlerDeferred(h, op)
 			mu.Lock()
 			res.Results[i] = r
 			res.Done[i] = true
@@ -320,6 +320,10 @@ func RunPool(sc PoolScenario, prefix []int) *PoolResult {
 	synctest.Wait()
 	mu.Lock()
 	defer mu.Unlock()
+	// only now, after every caller has been served on the shared connections, look at the bytes
+	for i := range res.Results {
+		res.Results[i].Materialize()
+	}
 	var o []string
 	for i := 0; i < n; i++ {
 		if res.Done[i] {
